@@ -20,11 +20,11 @@ RULE = ("15 aggregators x hostile and well-conditioned matrices x transformation
 ASSUMPTIONS = ["well-posedness guards (rank gap, condition <= 1e6 / 1e3, score gap, argmin margin, stationarity) computed in float64 "
                "decide *not judged*, never a verdict", "PCGrad / Random draws do not depend on the columns (same torch seed); GradDrop's "
                "per-column uniform draws are replayed permuted along with the columns through the torch.rand recorder"]
-N = {"quick": 9000, "thorough": 540000}
+N = {"quick": 9000, "thorough": 1350000}
 KINDS = ["orth", "iso", "perm", "zeros", "span"]
 
 
-WIDE = {"quick": 150, "thorough": 6000}
+WIDE = {"quick": 150, "thorough": 15000}
 
 
 def shards(tier, seed):
